@@ -149,6 +149,7 @@ def _gen_net(rng, mode, allow_diverging=False):
     t0 = rng.choice([0, 0, DAY, 5])
     dimL = rng.choice(["m", "mm", "km"])
     prods = []
+    pstat = []
     srcs = {"L": [], "1": []}  # available sources by dimension:  (src ref, is_static)
     for pi in range(rng.choice([1, 2, 2, 3])):
         outs = []
@@ -156,6 +157,12 @@ def _gen_net(rng, mode, allow_diverging=False):
             u = "" if oi == 1 else rng.choice(["m", "mm", "km", dimL, ""])
             outs.append({"unit": u, "a": _dy(rng), "b": _dy(rng)})
             srcs["1" if u == "" else "L"].append((["p", pi, oi], False))
+        if rng.random() < 0.45:
+            # a static parameter output owned by the time-stepped producer
+            u = rng.choice(["", "", dimL, "m"])
+            outs.append({"unit": u, "static": True, "v": _dy(rng)})
+            srcs["1" if u == "" else "L"].append((["p", pi, len(outs) - 1], True))
+            pstat.append(["p", pi, len(outs) - 1])
         prods.append({"steps": _steps(rng, unit), "outs": outs})
     stats = []
     if rng.random() < 0.5:
@@ -166,8 +173,10 @@ def _gen_net(rng, mode, allow_diverging=False):
 
     def edge(dim=None, prefer=None, nostatic=False):
         pool = (srcs["L"] + srcs["1"]) if dim is None else srcs[dim]
-        if nostatic:
+        if nostatic == "all":
             pool = [x for x in pool if not x[1]]
+        elif nostatic:
+            pool = [x for x in pool if x[0][0] != "s"]
         if prefer:
             pp = [x for x in pool if x[0][0] == "w" and x[0][1] in prefer]
             if pp and rng.random() < 0.8:
@@ -187,9 +196,11 @@ def _gen_net(rng, mode, allow_diverging=False):
         if rng.random() < 0.6:
             dim = "L" if (any(not x[1] for x in srcs["L"]) and rng.random() < 0.8) else "1"
             ins = []
-            for _ in range(rng.choice([1, 2, 2, 3])):
-                # (a static value input would leave the merger's output info without a time: outside the domain)
-                ins.append(edge(dim, prefer, nostatic=True))
+            npair = rng.choice([1, 2, 2, 3])
+            for k in range(npair):
+                # (a static value input in the last position would leave the merger's output info without a
+                #  time: outside the domain)
+                ins.append(edge(dim, prefer, nostatic=("all" if k == npair - 1 else True)))
                 ins.append(edge("1", prefer if rng.random() < 0.3 else None))
             pulls.append({"type": "ws", "ins": ins})
             new = [(["w", wi, 0], False)]
@@ -212,12 +223,12 @@ def _gen_net(rng, mode, allow_diverging=False):
             if r < 0.75:
                 s, st = rng.choice(allw)
                 ins.append({"edge": {"src": s, "ad": _adapters(rng, unit, False)}, "static": False})
-            elif r < 0.9 or not stats:
+            elif r < 0.87 or not (stats or pstat):
                 e = edge()
                 ins.append({"edge": e, "static": False})
             else:
-                si = rng.randrange(len(stats))
-                ins.append({"edge": {"src": ["s", si, 0], "ad": _adapters(rng, unit, True, 0.3)}, "static": rng.random() < 0.7})
+                allst = [["s", si, 0] for si in range(len(stats))] + pstat
+                ins.append({"edge": {"src": list(rng.choice(allst)), "ad": _adapters(rng, unit, True, 0.3)}, "static": rng.random() < 0.5})
         cons.append({"steps": _steps(rng, unit), "ins": ins, "pull_at_connect": rng.random() < 0.6})
     case = {"kind": "net", "mode": mode, "t0": t0, "prods": prods, "stats": stats, "pulls": pulls, "cons": cons}
     if mode == "run":
@@ -380,6 +391,22 @@ CORPUS = [
                                 ["pull", 0, 0, 11], ["pull", 0, 0, 6], ["upd", 0], ["pull", 0, 0, 20], ["pull", 0, 0, 0], ["pull", 0, 0, 20]]),
 ]
 
+
+# seeded mutant C20_b: a time-stepped model publishes a static parameter next to its state; read by ordinary
+# (non-static) inputs of a time-stepped consumer, by a static input, and as static weight / value of a WeightedSum
+CORPUS.append(_net(
+    [{"steps": [2 * DAY], "outs": [_po("m", 0, 1), _po("", 1, Fraction(1, 2)),
+                                   {"unit": "m", "static": True, "v": _fj(42)}, {"unit": "", "static": True, "v": _fj(Fraction(3, 4))}]}],
+    [],
+    [{"steps": [3 * DAY], "ins": [{"edge": _e(("p", 0, 2)), "static": False}, {"edge": _e(("p", 0, 0)), "static": False},
+                                  {"edge": _e(("p", 0, 2), ("scale", [2, 1])), "static": True}], "pull_at_connect": True}],
+    end=12 * DAY))
+CORPUS.append(_net(
+    [{"steps": [5, 3], "outs": [_po("mm", 1, 1), _po("", 1, 0),
+                                {"unit": "m", "static": True, "v": _fj(2)}, {"unit": "", "static": True, "v": _fj(Fraction(1, 4))}]}],
+    [{"type": "ws", "ins": [_e(("p", 0, 2)), _e(("p", 0, 1)), _e(("p", 0, 0)), _e(("p", 0, 3))]}],
+    [{"steps": [4], "ins": [{"edge": _e(("w", 0, 0)), "static": False}, {"edge": _e(("p", 0, 3)), "static": False}], "pull_at_connect": False}],
+    end=30))
 
 # known finding F16: one pull-based component read by two consumers with different steps
 F16_CASE = _net([{"steps": [7], "outs": [_po("m", 1, 1), _po("", 1, 0)]}],
@@ -548,16 +575,21 @@ class _Prod(fm.TimeComponent):
         st = self.spec["steps"]
         return self.time + D(st[self.k % len(st)])
 
-    def _vals(self):
-        return {f"O{i}": float(_fr(o["a"]) + _fr(o["b"]) * self.k) for i, o in enumerate(self.spec["outs"])}
+    def _vals(self, static):
+        return {f"O{i}": float(_fr(o["v"]) if o.get("static") else _fr(o["a"]) + _fr(o["b"]) * self.k)
+                for i, o in enumerate(self.spec["outs"]) if static or not o.get("static")}
 
     def _initialize(self):
         for i, o in enumerate(self.spec["outs"]):
-            self.outputs.add(name=f"O{i}", time=self.time, grid=fm.NoGrid(), units=o["unit"])
+            if o.get("static"):
+                # a static parameter published once, next to the time dependent outputs
+                self.outputs.add(name=f"O{i}", static=True, time=None, grid=fm.NoGrid(), units=o["unit"])
+            else:
+                self.outputs.add(name=f"O{i}", time=self.time, grid=fm.NoGrid(), units=o["unit"])
         self.create_connector()
 
     def _connect(self, start_time):
-        self.try_connect(start_time, push_data=self._vals())
+        self.try_connect(start_time, push_data=self._vals(True))
 
     def _validate(self):
         pass
@@ -566,8 +598,16 @@ class _Prod(fm.TimeComponent):
         st = self.spec["steps"]
         self._time += D(st[self.k % len(st)])
         self.k += 1
-        for name, v in self._vals().items():
+        for name, v in self._vals(False).items():
             self.outputs[name].push_data(v, self.time)
+        if self.k == 1:
+            # a further publication on a static output must be refused
+            for i, o in enumerate(self.spec["outs"]):
+                if o.get("static") and self.outputs[f"O{i}"].has_targets:
+                    try:
+                        self.outputs[f"O{i}"].push_data(float(_fr(o["v"])) + 1.0, self.time)
+                    except fm.errors.FinamStaticDataError:
+                        pass
 
     def _finalize(self):
         pass
@@ -678,7 +718,10 @@ def _topology(case):
     for pi, p in enumerate(case["prods"]):
         for oi, o in enumerate(p["outs"]):
             nid[("p", pi, oi)] = len(nodes)
-            nodes.append({"kind": "out", "unit": o["unit"], "p": pi, "o": oi})
+            if o.get("static"):
+                nodes.append({"kind": "stat", "unit": o["unit"], "v": o["v"], "p": pi})
+            else:
+                nodes.append({"kind": "out", "unit": o["unit"], "p": pi, "o": oi})
     for si, s in enumerate(case["stats"]):
         for oi, o in enumerate(s["outs"]):
             nid[("s", si, oi)] = len(nodes)
